@@ -147,6 +147,38 @@ Theorem C04_join_returns_held :
     In (id, tok) res -> tok = slot_of s o /\ tok <> None.
 Proof. exact C04_join_returns_held_proof. Qed.
 
+(* The unique-index lookup -- Cls.<index>.get(value) of a DatabaseIndex(unique=True), i.e. selectBy(...).getOne() -- is
+   the path PIndex k u (the fixture's unique index is on column u).  It hands back the very object the application
+   holds for the row it finds ... *)
+Theorem C04_index_returns_held :
+  forall (cfg : config) (pops : list pop) (k : kind) (u : Z) (o : nat) (id' : Z) (tok : option nat) (s' : st),
+    forallb pguard04 pops = true ->
+    let s := prun cfg pops in
+    held s o -> current s o -> is_row s o k id' ->
+    pstep cfg s (PPath (PIndex k u)) = (Ret (RObj id' tok), s') ->
+    tok = slot_of s o /\ tok <> None.
+Proof. exact C04_index_returns_held_proof. Qed.
+
+(* ... the row it finds is THE row holding the key (exactly one matches), it exists afterwards -- a deleted row is
+   never handed out, whether or not the history unpickled anything -- and the lookup writes nothing ... *)
+Theorem C04_index_yields_row :
+  forall (cfg : config) (pops : list pop) (k : kind) (u : Z) (id' : Z) (tok : option nat) (s' : st),
+    forallb pguard04 pops = true ->
+    let s := prun cfg pops in
+    pstep cfg s (PPath (PIndex k u)) = (Ret (RObj id' tok), s') ->
+    (exists r, index_rows s k u = [(id', r)] /\ assoc id' (t_rows (tbl s' k)) = Some r) /\ tables s' = tables s.
+Proof. exact C04_index_yields_row_proof. Qed.
+
+(* ... and when no row holds the key it raises not-found and builds or registers nothing. *)
+Theorem C04_index_absent :
+  forall (cfg : config) (pops : list pop) (k : kind) (u : Z),
+    forallb pguard04 pops = true ->
+    let s := prun cfg pops in
+    index_rows s k u = [] ->
+    fst (pstep cfg s (PPath (PIndex k u))) = Raise ENotFound /\
+    heap (snd (pstep cfg s (PPath (PIndex k u)))) = heap s /\ caches (snd (pstep cfg s (PPath (PIndex k u)))) = caches s.
+Proof. exact C04_index_absent_proof. Qed.
+
 (* With no unpickling in the history a foreign key never leads to an instance of a deleted row. *)
 Theorem C04_fk_deleted_not_returned_partial :
   forall (cfg : config) (pops : list pop) (h : nat) (k' : kind) (id' : Z) (tok : option nat) (s' : st),
@@ -182,6 +214,11 @@ Proof. exact phist_fk. Qed.
 Example C04_paths_example_join :
   fst (pstep cfgC (prun cfgC phist) (PPath (PJoin 0 Lazy (Some 0%nat)))) = Ret (RObjs [(1, Some 1%nat); (2, Some 2%nat)]).
 Proof. exact phist_join. Qed.
+(* the child Lazy 2 (slot 2, u = 201) found through the unique index after both classes were culled; no row has u = 7 *)
+Example C04_paths_example_index :
+  fst (pstep cfgC (prun cfgC phist) (PPath (PIndex Lazy 201))) = Ret (RObj 2 (Some 2%nat)) /\
+  fst (pstep cfgC (prun cfgC phist) (PPath (PIndex Lazy 7))) = Raise ENotFound.
+Proof. exact phist_index. Qed.
 
 (* ------------------------------------------------------------------ ... and through injected database errors *)
 (* `pguard04f` = pguard04, ALSO allowing every base operation and every path operation to run with a database error
@@ -226,6 +263,15 @@ Theorem C04_fk_returns_held_with_faults :
     pstep cfg s (PPath (PFk h k')) = (Ret (RObj id' tok), s') ->
     tok = slot_of s o /\ tok <> None.
 Proof. exact C04_fk_returns_held_faults_proof. Qed.
+
+Theorem C04_index_returns_held_with_faults :
+  forall (cfg : config) (pops : list pop) (k : kind) (u : Z) (o : nat) (id' : Z) (tok : option nat) (s' : st),
+    forallb pguard04f pops = true ->
+    let s := prun cfg pops in
+    held s o -> current s o -> is_row s o k id' ->
+    pstep cfg s (PPath (PIndex k u)) = (Ret (RObj id' tok), s') ->
+    tok = slot_of s o /\ tok <> None.
+Proof. exact C04_index_returns_held_faults_proof. Qed.
 
 Theorem C04_join_returns_held_with_faults :
   forall (cfg : config) (pops : list pop) (h : nat) (k' : kind) (keep : option nat) (o : nat) (id : Z)
@@ -295,6 +341,10 @@ Print Assumptions C04_paths_unique.
 Print Assumptions C04_paths_get_returns_held.
 Print Assumptions C04_fk_returns_held.
 Print Assumptions C04_join_returns_held.
+Print Assumptions C04_index_returns_held.
+Print Assumptions C04_index_yields_row.
+Print Assumptions C04_index_absent.
+Print Assumptions C04_index_returns_held_with_faults.
 Print Assumptions C04_fk_deleted_not_returned_partial.
 Print Assumptions C04_join_yields_referencing_rows.
 Print Assumptions C04_paths_cached_is_current.
